@@ -156,6 +156,9 @@ type Report struct {
 	Assumptions []string
 	Extra       map[string]any
 	Broken      []string // checker-level failures (load errors, self-test failures, panics)
+	// Platform names the target of the primary pass when it is not the default one ("GOARCH=386" when the checker
+	// itself is run for that target): its obligations are then those a known finding lists with that suffix
+	Platform string
 }
 
 // Emit prints the harness lines, writes evidence and replay files and returns
@@ -177,6 +180,26 @@ func (r *Report) emit(verifDir string, known *KnownFile, seed int64, wall float6
 			knownKeys[f.Key] = f
 		}
 	}
+	// a finding is listed for the platform it was shown on: a key ending in " [GOARCH=386]" matches only the
+	// obligation of the second pass (the same violation on the primary platform is a different, unlisted one); a key
+	// without the suffix is a platform-independent finding and also covers its repetition in the second pass
+	lookup := func(o Ob) (Finding, bool) {
+		if r.Platform != "" && o.Key() == o.BaseKey() {
+			if f, ok := knownKeys[o.Key()+" ["+r.Platform+"]"]; ok {
+				return f, true
+			}
+			f, ok := knownKeys[o.Key()]
+			return f, ok
+		}
+		if f, ok := knownKeys[o.Key()]; ok {
+			return f, true
+		}
+		if o.Key() != o.BaseKey() {
+			f, ok := knownKeys[o.BaseKey()]
+			return f, ok
+		}
+		return Finding{}, false
+	}
 	var viol, undec, knownHit []Ob
 	disc := 0
 	rules := map[string][3]int{}
@@ -188,7 +211,7 @@ func (r *Report) emit(verifDir string, known *KnownFile, seed int64, wall float6
 			c[0]++
 		case Violated:
 			c[1]++
-			if _, ok := knownKeys[o.BaseKey()]; ok {
+			if _, ok := lookup(o); ok {
 				knownHit = append(knownHit, o)
 			} else {
 				viol = append(viol, o)
@@ -213,13 +236,15 @@ func (r *Report) emit(verifDir string, known *KnownFile, seed int64, wall float6
 	for _, o := range knownHit { // the primary platform first, a finding met only in the GOARCH=386 pass after it
 		if !strings.HasSuffix(o.Construct, " [GOARCH=386]") {
 			printed[o.BaseKey()] = true
-			fmt.Printf("KNOWN-FINDING: property=%s rule=%s site=%s %s\n", r.Prop, o.Rule, o.Site, knownKeys[o.BaseKey()].What)
+			f, _ := lookup(o)
+			fmt.Printf("KNOWN-FINDING: property=%s rule=%s site=%s %s\n", r.Prop, o.Rule, o.Site, f.What)
 		}
 	}
 	for _, o := range knownHit {
 		if strings.HasSuffix(o.Construct, " [GOARCH=386]") && !printed[o.BaseKey()] {
 			printed[o.BaseKey()] = true
-			fmt.Printf("KNOWN-FINDING: property=%s rule=%s site=%s [GOARCH=386] %s\n", r.Prop, o.Rule, o.Site, knownKeys[o.BaseKey()].What)
+			f, _ := lookup(o)
+			fmt.Printf("KNOWN-FINDING: property=%s rule=%s site=%s [GOARCH=386] %s\n", r.Prop, o.Rule, o.Site, f.What)
 		}
 	}
 	exit := 0
